@@ -38,6 +38,13 @@ func boundaryYears() []int {
 	for _, y := range []int{100, 200, 300, 500, 600, 700, 900, 1000, 1100, 1300, 1400, 1500} {
 		ys = append(ys, y)
 	}
+	// the years after those (their first days are counted from the previous, Julian-only leap, year)
+	for _, y := range []int{101, 201, 301, 501, 601, 701, 901, 1001, 1101, 1301, 1401, 1501} {
+		ys = append(ys, y)
+	}
+	// years with a solar term within two seconds of local midnight (found by scanning all 9 998 tables of the
+	// unchanged library; tools/near_midnight_terms.go re-derives the list)
+	ys = append(ys, 32, 699, 1951, 3167, 3186, 3255, 3439, 3824, 4886, 5014, 6167, 8502)
 	// years with (or right after) a leap 11th / 12th month, on both sides of the 1575..3357 stretch that has no leap 12
 	for _, y := range []int{37, 38, 75, 76, 1574, 1575, 1576, 2128, 2129, 3358, 3359} {
 		ys = append(ys, y)
@@ -153,6 +160,42 @@ func historyTouch(w *W, y int) {
 		digest1(s.GetLunar())
 	}
 	w.Count("cases-with-later-year-history", 1)
+}
+
+// distract: a conversion of some other moment (a year or some weeks away, on either side; which one rotates with n),
+// with a few accessors that go through package-level helpers, slipped in between two judged moments. One-slot memos
+// keyed too coarsely (by lunar year only, by month and day only, ...) hand the judged moment the distractor's answer.
+var distractOffsets = []int64{-365, 365, 40, -40, 300, -300, 1, -1, 59, -59}
+
+func distract(st ref.Stamp, n int) {
+	if n < 0 {
+		n = -n
+	}
+	t := st.Secs() + distractOffsets[n%len(distractOffsets)]*86400
+	lo, hi := ref.Stamp{Y: minYear, M: 1, D: 1}.Secs(), ref.Stamp{Y: maxYear, M: 12, D: 31, H: 23, Mi: 59, S: 59}.Secs()
+	if t < lo || t > hi {
+		t = st.Secs() - distractOffsets[n%len(distractOffsets)]*86400
+	}
+	if t < lo || t > hi {
+		return
+	}
+	s := solarOf(ref.FromSecs(t))
+	l := s.GetLunar()
+	l.GetJieQi()
+	l.GetNextQi()
+	l.GetPrevJieQiByWholeDay(true)
+	l.GetDayNineStar()
+	l.GetFestivals()
+	l.GetOtherFestivals()
+	l.GetDayYi()
+	l.GetTime().GetNineStar()
+	l.GetFoto().IsDayZhaiSix()
+	l.GetTao().IsDaySanHui()
+	l.GetHou()
+	l.GetShuJiu()
+	l.GetFu()
+	s.GetFestivals()
+	_ = s.ToFullString() + l.ToFullString()
 }
 
 func absInt(a int) int {
